@@ -1054,7 +1054,8 @@ def make_policy(rng, kind, est=200):
 # add_task calls, in program order.  Printed from the source by shape_of(); compared verbatim.
 AUDITED_ATTRS = ("will_close", "close_when_flushed", "connected", "requests")
 AUDITED_CALLS = ("add_task", "handle_close", "send_continue", "_flush_exception", "received", "pull_trigger",
-                 "_flush_outbufs_below_high_watermark", "cancel", "close", "service", "_flush_some", "send")
+                 "_flush_outbufs_below_high_watermark", "cancel", "close", "service", "_flush_some", "send",
+                 "_flush_some_if_lockable")
 SHOW_KW = ("do_close",)
 
 SIGNATURE = {
@@ -1063,9 +1064,10 @@ SIGNATURE = {
     "channel.HTTPChannel.writable":
         'R:total_outbufs_len R:will_close R:close_when_flushed',
     "channel.HTTPChannel.handle_write":
-        'if(R:requests) { } elif(R:total_outbufs_len) { } else { } call:_flush_exception '
-        'if(R:close_when_flushed R:total_outbufs_len) { W:close_when_flushed=False W:will_close=True } '
-        'if(R:will_close) { call:handle_close }',
+        'if(R:requests) { ref:_flush_some_if_lockable } elif(R:total_outbufs_len) { '
+        'ref:_flush_some_if_lockable } else { } call:_flush_exception if(R:close_when_flushed '
+        'R:total_outbufs_len) { W:close_when_flushed=False W:will_close=True } if(R:will_close) { '
+        'call:handle_close }',
     "channel.HTTPChannel._flush_exception":
         'if() { try { } except(OSError) { if() { } W:will_close=True } except(Exception) { W:will_close=True '
         '} }',
@@ -1212,6 +1214,9 @@ class _Shape(ast.NodeVisitor):
             targets = s.targets if isinstance(s, ast.Assign) else [s.target]
             val = s.value
             o.extend(self.expr_tokens(val) if val is not None else [])
+            if isinstance(val, ast.Attribute) and isinstance(val.value, ast.Name) and val.value.id == "self" \
+                    and val.attr in AUDITED_CALLS:
+                o.append("ref:" + val.attr)      # e.g. `flush = self._flush_some_if_lockable`
             for t in targets:
                 if isinstance(t, ast.Attribute) and isinstance(t.value, ast.Name) and t.value.id in ("self", "channel") \
                         and t.attr in AUDITED_ATTRS:
